@@ -87,7 +87,17 @@ def check_case(case):
         S = seq(ref)
         T = len(S)
         R = result_tuple(sol_ref)
-        rep = oc.Run(base, cap=cap)
+        if case.get("reuse_params"):
+            # the repeated run is given the very SolverParameters OBJECT of the first one; in between, the caller builds (and never runs)
+            # a solver for another, higher-dimensional problem with the same object - "the same parameters" must mean the same search
+            from iOpt.solver import Solver
+            import impl as _impl
+            nb = case["reuse_params"]
+            other = Solver(_impl.LoggedProblem.make(lambda pt: float(sum(pt)), [0.0] * nb, [1.0] * nb), ref.solver.parameters)
+            rep = oc.Run(base, cap=cap, params=ref.solver.parameters)
+            del other
+        else:
+            rep = oc.Run(base, cap=cap)
         sol_rep = rep.solve()
         if seq(rep) != S or result_tuple(sol_rep) != R or bool(rep.collapsed) != bool(ref.collapsed):
             fail("repeat-run", first_diff(seq(rep), S))
@@ -199,6 +209,8 @@ def gen(r, tier):
     case["compositions"] = comps
     if r.random() < 0.2:
         case["companion"] = oc.gen_case(r, lim=200)     # a second solver that is stepped between the batches of the first
+    if r.random() < 0.12 and not case.get("np_params"):
+        case["reuse_params"] = r.choice([6, 7, 3])      # dimension of the problem another solver is built for with the same parameters object
     return case
 
 
